@@ -237,7 +237,9 @@ Load(t) ==
                /\ pc' = [pc EXCEPT ![t] = "ret"]
           [] k = "intoseq" /\ pc[t] = "ld" ->
                /\ res' = [res EXCEPT ![t] = RSeq(c, op[t].take)]
-               /\ pc' = [pc EXCEPT ![t] = IF HasDrop THEN "ld2" ELSE "ret"]
+               \* the vector's Drop runs at the end of into_seq_iter and loads the counter once more;
+               \* the array forgets itself after handing out the remainder
+               /\ pc' = [pc EXCEPT ![t] = IF cf.kind = "vec" THEN "ld2" ELSE "ret"]
                /\ alive' = alive \ {i}
                /\ UNCHANGED <<counter, mon, buf>>
           [] OTHER ->       \* the load of Drop::drop (vec / array), also at the end of into_seq_iter
